@@ -147,7 +147,7 @@ def main(tier):
         c.coverage = {
             "evaluations": evals + ncli,
             "distinct_nontrivial": nontrivial,
-            "rule": "parser: every string over the 108-lexeme alphabet up to the length bound in 12 syntactic contexts, "
+            "rule": "parser: every string over the 110-lexeme alphabet up to the length bound in 12 syntactic contexts, "
                     "every string over the 14-symbol delimiter alphabet up to its bound, every repository .dora file and "
                     "every single-token edit of it; semantic analysis (Sema::new + check_program on the real crates): the "
                     "same text space at a shorter bound and every repository file as a program; CLI: `dora compile -c` on "
